@@ -10,7 +10,7 @@ PROPS["C02"] = dict(
           "boundary), 0, j/32, 2^-20 lattice}, box type auto-detected or explicit (diagonal matrix also as explicit triclinic), three "
           "routes (Topology::BCShortestConnection, Topology::getDist on two beads, boundary class + Clone); points = B*(f+n) with f on a "
           "2^-m lattice (m in 1,2,4,12,20: faces, half edges) and n per axis from {0,+-1,+-2,+-1000,+-10^6}; 15% of the cases are the same "
-          "fractional point or differ by exactly half a box vector (ties); both points are then moved by further whole box vectors. "
+          "fractional point or differ by exactly half a box vector (ties) or by half a box vector +-2^-e, e in 22..45 (near-ties with a unique answer); both points are then moved by further whole box vectors. "
           "Oracle: long double brute force over 5x5x5 images, lattice membership by fractional coordinates; shortest demanded always for "
           "diagonal boxes, for triclinic only below 0.5*h_min. Non-trivial = the plain difference is not the minimum image (some |n_k| >= 1) "
           "and the case is not in an ambiguity band (length tie / component on the half-edge brick face). "
